@@ -1,5 +1,19 @@
-(* C09 — property theorems (bootstrap stage; see DESIGN.md section 6). *)
-From Verif Require Import Inflate.
-Theorem C09_spec_inflater_runs : status (inflate [] [3;0]) = Done /\ out (inflate [] [3;0]) = [].
-Proof. vm_compute. split; reflexivity. Qed.
-Print Assumptions C09_spec_inflater_runs.
+(* C09 — property theorems.  Model: WModel/{LZ77,Codes,Encode,Compressor,WriterSM}.v — the pure-Go writer (acceleration level 0), compared byte for byte with the implementation on every run; the assembly levels are tied to it by the run-time contract checks (DESIGN.md 4.3).
+   Only statements, each closed by `exact`, followed by Print Assumptions. *)
+From Verif Require Import FinalSpec WriterTheorems WriterStateProofs TraceContent.
+Open Scope N_scope.
+
+(* two histories with the same normal form (adjacent Writes merged, empty Writes dropped; Flush and
+   Close positions fixed) end in the same writer state -- in particular the destination has received
+   the same bytes in the same chunks *)
+Theorem C09_partition : C09_statement.
+Proof. exact WriterTheorems.C09_partition. Qed.
+Print Assumptions C09_partition.
+
+Theorem C09_write_split : write_split_statement.
+Proof. exact WriterStateProofs.write_split. Qed.
+Print Assumptions C09_write_split.
+
+Theorem C09_write_empty : write_empty_statement.
+Proof. exact WriterStateProofs.write_empty. Qed.
+Print Assumptions C09_write_empty.
